@@ -221,6 +221,11 @@ func (g *c10Gen) input() c10Input {
 	return c10Input{Hex: fmt.Sprintf("%x", b.Bytes()), Class: cls}
 }
 
+// c10Batch: inputs per worker process; every process starts cold (nothing
+// cached or compiled yet) with the simultaneous sessions staged at the
+// beginning of its batch, so a smaller batch means more cold starts per run.
+const c10Batch = 400
+
 // c10Permissions: a rule list as an operator writes it (several rules; all
 // files of the harness stay readable).
 var c10Permissions = []string{"^/.*", "!^/nonexistent-a/.*", "!^/nonexistent-b/.*\\.key$", "readfiles:^/.*", "!^/root/\\.ssh/.*",
@@ -252,7 +257,7 @@ func c10(r *vlib.Run) int {
 	// a directory of many files: one request makes the server check and read
 	// all of them at once
 	os.MkdirAll(filepath.Join(dir, "many"), 0755)
-	for k := 0; k < 250; k++ {
+	for k := 0; k < 400; k++ {
 		os.WriteFile(filepath.Join(dir, "many", fmt.Sprintf("m%03d.log", k)), []byte(fmt.Sprintf("file %d line one\n", k)), 0644)
 	}
 	// compressed files whose stream breaks in the middle (the reader fails while
@@ -296,7 +301,7 @@ func c10(r *vlib.Run) int {
 	// server, nothing cached or compiled yet) are several many-file requests
 	// at the same time
 	for i := range inputs {
-		if k := i % 400; k < 4 {
+		if k := i % c10Batch; k < 4 {
 			cmd := "cat " + dir + "/many/*.log regex:noop "
 			if k%2 == 1 {
 				cmd = "grep " + dir + "/many/m*.log regex:default one"
@@ -306,7 +311,7 @@ func c10(r *vlib.Run) int {
 	}
 	// mapreduce sessions over a compressed file whose stream breaks
 	for i := range inputs {
-		if k := i % 400; k >= 4 && k < 8 {
+		if k := i % c10Batch; k >= 4 && k < 8 {
 			f := []string{"/cut.gz", "/cut.zst", "/cut.gz", "/garbage.gz"}[k-4]
 			q := []string{"map select count($line) from STATS group by a", "map from STATS select count($line),max(b) group by a interval 1"}[k%2]
 			inputs[i] = c10Input{Hex: fmt.Sprintf("%x", encodeCommand(q)+encodeCommand("cat "+dir+f+" regex:noop ")), Class: "valid-sequence/map,cat-broken-compressed-file"}
@@ -316,7 +321,7 @@ func c10(r *vlib.Run) int {
 	// generic), with and without a set clause, over a few thousand lines: every
 	// line passes through all stages of the aggregation pipeline
 	for i := range inputs {
-		if k := i % 400; k >= 8 && k < 12 {
+		if k := i % c10Batch; k >= 8 && k < 12 {
 			q := []string{
 				"map select count($line),last($line) group by $hostname set $x = md5sum($line) logformat generic",
 				"map select count($line) group by $hostname",
@@ -330,7 +335,20 @@ func c10(r *vlib.Run) int {
 	for i := range inputs {
 		cases[i] = inputs[i]
 	}
-	results, crashes := r.RunBatchesOpts("c10handler", cases, vlib.BatchOpts{Size: 400, Workers: 14})
+	// cold starts on their own: worker processes that do nothing but four
+	// simultaneous many-file requests right after start-up
+	nCold := r.N(40, 400)
+	var cold []interface{}
+	for k := 0; k < 4*nCold; k++ {
+		cold = append(cold, inputs[k%4])
+	}
+	_, coldCrashes := r.RunBatchesOpts("c10handler", cold, vlib.BatchOpts{Size: 4, Workers: 8})
+	r.Count("cold_server_processes_hit_by_simultaneous_many_file_requests", nCold)
+	for _, cr := range coldCrashes {
+		r.Violation("server-handler-crash", map[string]interface{}{"scenario": "four simultaneous many-file glob requests as the first sessions of a server process (10 permission rules)",
+			"stderr": vlib.Trunc(string(cr.Result.Stderr), 3000), "exit": cr.Result.Exit, "signal": cr.Result.Signal})
+	}
+	results, crashes := r.RunBatchesOpts("c10handler", cases, vlib.BatchOpts{Size: c10Batch, Workers: 14})
 	for _, cr := range crashes {
 		var idxs []int
 		if cr.Index >= 0 {
